@@ -382,6 +382,27 @@ func DependsOn(v ssa.Value, src func(ssa.Value) bool) bool {
 				}
 			}
 			return false
+		case *ssa.FreeVar:
+			// the binding given by the enclosing function's MakeClosure
+			fn := x.Parent()
+			idx := -1
+			for i, fv := range fn.FreeVars {
+				if fv == x {
+					idx = i
+				}
+			}
+			if par := fn.Parent(); par != nil && idx >= 0 {
+				for _, b := range par.Blocks {
+					for _, in := range b.Instrs {
+						if mc, ok := in.(*ssa.MakeClosure); ok && mc.Fn == ssa.Value(fn) && idx < len(mc.Bindings) {
+							if rec(mc.Bindings[idx]) {
+								return true
+							}
+						}
+					}
+				}
+			}
+			return false
 		case *ssa.Alloc, *ssa.MakeSlice:
 			// values stored into the object (directly or through an element /
 			// field address)
